@@ -83,7 +83,8 @@ def spreadsheet_of(form, spec):
         # a CSV export of the same sheets, spacer columns included (read by position, like every other container)
         return render.csv_of_sheets(render.sheets_of(form), cols=locals().get("csv_cols", {})).encode("utf-8")
     try:
-        return c12.grids_to_xlsx(grids) if spec["fmt"] == "xlsx" else c12.grids_to_xls(grids)
+        hidden = [n for n, _ in grids if n.lower() != "survey" and r0.random() < 0.25]
+        return c12.grids_to_xlsx(grids, hidden=hidden) if spec["fmt"] == "xlsx" else c12.grids_to_xls(grids)
     except Exception:  # noqa: BLE001  (the writer refuses the text: not a pyxform matter)
         return None
 
